@@ -725,8 +725,5 @@ func Run(c *core.Ctx) error {
 			return err
 		}
 	}
-
-	// ---- witnesses of known findings ---------------------------------------
-	runWitnesses(c, t)
 	return nil
 }
